@@ -995,6 +995,25 @@ mod tests {
 
 #[cfg(feature = "verif")]
 impl UtpStreamReadHalf {
+    /// Verification hook: dump of the state shared with the connection (it outlives the connection).
+    pub fn verif_shared_fp(&self, out: &mut Vec<u64>) {
+        let g = self.shared.locked.lock();
+        let UserRxSharedLocked {
+            reader_dropped,
+            vsock_closed,
+            queue,
+            dispatcher_waker,
+            reader_waker,
+        } = &*g;
+        out.push(
+            (*reader_dropped as u64)
+                | (*vsock_closed as u64) << 1
+                | (dispatcher_waker.is_some() as u64) << 2
+                | (reader_waker.is_some() as u64) << 3,
+        );
+        queue.verif_fp(out);
+    }
+
     /// Verification hook: the read half's private state (partially consumed message, EOF flag).
     pub fn verif_fp(&self, out: &mut Vec<u64>) {
         let UtpStreamReadHalf {
